@@ -346,7 +346,7 @@ Proof.
   pose proof R0 as R0'. unfold RA0 in R0'.
   pose proof (ra_tn _ _ _ _ R0') as Tab. simpl in Tab.
   pose proof (ra_ty _ _ _ _ R0') as TYa.
-  unfold check_output in RCk.
+  pose proof RCk as RCk0. unfold check_output in RCk.
   destruct (PM.find 1%positive (tensors a')) as [tsa'|] eqn:Fa1; try discriminate.
   destruct (check_levels a' (t_idx tsa') exp) eqn:CL; try discriminate.
   destruct (read_ptr a' (t_vals tsa') (zlen vals)) as [[lv cv]|] eqn:RV; try discriminate.
@@ -366,7 +366,7 @@ Proof.
     destruct (OCb' _ Fb1) as (_ & Cp & _). rewrite Vq in Cp. simpl in Cp.
     destruct (b_input bb) eqn:Q; auto. exfalso. apply Cp. exists bb. auto. }
   (* PreC *)
-  destruct (Sh _ _ T1) as (ts1 & Fs1 & D1 & Len1). rewrite Fb1 in Fs1. inv Fs1. simpl in D1, Len1.
+  destruct (Sh _ _ T1) as (ts1 & Fs1 & D1 & Len1). rewrite Fb1 in Fs1. assert (Ets : ts1 = tsa') by congruence. subst ts1. clear Fs1. simpl in D1, Len1.
   assert (Pre : PreC (roles_of fe) 1%positive bV st0 b').
   { split; [exact (ra_ty _ _ _ _ RI0)|]. split; [exact Fr1|]. split; [|split].
     - intros t Nt ts F. pose proof (NO _ _ F Nt) as Ot. split; [exact (Fr2 _ _ F Ot)|].
@@ -380,32 +380,158 @@ Proof.
       split; [auto|]. split; [auto|]. split; [|auto].
       eapply check_levels_isptr; eauto.
     - exists bb. repeat split; auto; congruence. }
-  pose proof (compute_cert3_sound fe fc CC (fuel_of fuel) 1%positive bV _ st0 b' Pre) as CSd.
+  pose proof (compute_cert3_sound fe fc CC (fuel_of fuel) 1%positive bV (pseq 2 (List.length rest)) st0 b' Pre) as CSd.
   assert (Nin : ~ In 1%positive (pseq 2 (List.length rest))).
   { intros I. apply pseq_ge in I. lia. }
-  specialize (CSd _ Nin). rewrite CE in CSd.
+  specialize (CSd Nin). rewrite CE in CSd.
   destruct CSd as [(c' & trC & CCl & ph & cur & Rc)|CF].
   2:{ rewrite CF. right. reflexivity. }
   rewrite CCl. cbn [run_steps]. left.
   (* compute's frame *)
   destruct (compute_store_sound fc CS _ _ _ _ _ _ _ CCl) as (Fr & [_ SS] & Tc).
   destruct (RC_values _ _ _ _ _ _ _ _ Rc) as (tsa2 & tsc2 & Fa2 & Fc2 & _ & Vc2 & Vals).
-  rewrite Fa1 in Fa2. inv Fa2.
+  rewrite Fa1 in Fa2. assert (Et2 : tsa2 = tsa') by congruence. subst tsa2. clear Fa2.
   apply (check_output_transfer a' c' exp vals exact).
   - rewrite Tc. auto.
-  - intros ts F p q I w. rewrite Fa1 in F. inv F. destruct (TIa _ _ I) as [Tp Tq].
+  - intros ts F p q I w. rewrite Fa1 in F. assert (ts = tsa') by congruence. subst ts. clear F.
+    destruct (TIa _ _ I) as [Tp Tq].
     assert (X : forall r, ptr_int (heap (with_env a' [])) r -> read_ptr c' r w = read_ptr a' r w).
-    { intros r Pr. rewrite <- (read_ptr_RA _ _ _ _ r w R0' Pr).
-      destruct r; auto. change (read_ptr (with_env b' []) (VPtr blk off) w) with (read_ptr b' (VPtr blk off) w).
+    { intros r Pr. transitivity (read_ptr b' r w); [|exact (read_ptr_RA _ _ _ _ r w R0' Pr)].
+      destruct r; auto.
       apply read_ptr_same_block. apply Fr. intros [o Q]. unfold vals_of in Q. rewrite Fb1, Vq in Q. inv Q.
       simpl in Pr. destruct Pr as (x & Fx & Flx). rewrite Fbe in Fx. inv Fx. congruence. }
     split; apply X; auto.
-  - intros ts n lv0 cv0 F R. rewrite Fa1 in F. inv F. rewrite Vq in *.
+  - intros ts n lv0 cv0 F R. rewrite Fa1 in F. assert (ts = tsa') by congruence. subst ts. clear F.
+    rewrite Vq in R |- *.
     unfold read_ptr in R. rewrite Fbe, Lbe in R. inv R.
-    destruct (Vals bV 0 be Vq Fbe Lbe) as (_ & bc & Fbc & Lbc & Flbc & Sub).
+    destruct (Vals bV 0 be0 Vq Fbe Lbe) as (_ & bc & Fbc & Lbc & Flbc & Sub).
     specialize (SS bV). rewrite Fbb, Fbc in SS. destruct SS as (S1 & S2 & _).
     unfold read_ptr. rewrite Fbc, Lbc. rewrite S2, <- Hb2.
     eexists. split; [reflexivity|]. intros vs A. unfold read_cells in *.
     eapply all2_sub; [|exact A]. intros i v Ii Fi. apply Sub; auto.
     apply in_seq in Ii. unfold key. rewrite Z2Pos.id by lia. rewrite S2, <- Hb2. lia.
+  - exact RCk0.
+Qed.
+
+(** * Re-running compute: the same argument from ANY state that holds the inputs and a structure
+      assembled for inputs of the same structure *)
+
+(** [c] is a state compute may be (re-)run in, for the inputs laid out in [st0'] and the structure
+    of [b'] (a final state of assemble): every block of [st0'] is in [c] as it is, the input structs
+    too; the tensor structs of [c] are those of [b']; every block has the shape it has in [b'] and
+    the int32 blocks of [b'] (pos / crd arrays) are in [c] cell for cell.  The content of the value
+    block is arbitrary. *)
+Definition recompute_pre (st0' b' c : state) : Prop :=
+  (forall b x, PM.find b (heap st0') = Some x -> PM.find b (heap c) = Some x) /\
+  (forall t ts, t <> 1%positive -> PM.find t (tensors st0') = Some ts -> PM.find t (tensors c) = Some ts) /\
+  tensors c = tensors b' /\ same_shape b' c /\
+  (forall b x, PM.find b (heap b') = Some x -> b_float x = false -> PM.find b (heap c) = Some x).
+
+Theorem compute_after fe fa fc :
+  compute_cert3 fe fc = true -> compute_store_cert fc = true ->
+  forall fuel t0 rest exp vals exact, out_first (t0 :: rest) ->
+  forall a' tE b' c,
+    call fuel fe (snd (init_state (t0 :: rest))) (fst (init_state (t0 :: rest))) = Returned a' (VInt 0) tE ->
+    check_output a' 1%positive exp vals exact = VOk ->
+    RA0 fe fa a' b' ->
+    (forall ts bV o x, PM.find 1%positive (tensors b') = Some ts -> t_vals ts = VPtr bV o ->
+       PM.find bV (heap b') = Some x -> b_input x = false) ->
+    recompute_pre (fst (init_state (t0 :: rest))) b' c ->
+    (exists c' tr, call fuel fc (snd (init_state (t0 :: rest))) c = Returned c' (VInt 0) tr /\
+                   check_output c' 1%positive exp vals exact = VOk /\
+                   recompute_pre (fst (init_state (t0 :: rest))) b' c') \/
+    call fuel fc (snd (init_state (t0 :: rest))) c = Fail EOutOfBounds.
+Proof.
+  intros CC CS fuel t0 rest exp vals exact OF a' tE b' c CE RCk0 R0 NI (C1 & C2 & C3 & C4 & C5).
+  destruct (init_state_facts t0 rest OF) as (Args & T1 & NO).
+  pose proof (init_state_ai (t0 :: rest)) as AI.
+  destruct (RI_init_state (roles_of fe) (assigned_only_in fe fa) (t0 :: rest) (t0 :: rest) (tin_sim_refl _))
+    as [RI0 _].
+  destruct (init_state (t0 :: rest)) as [st0 args] eqn:IS0. cbn [fst snd] in *. subst args.
+  pose proof (call_shape _ _ _ _ _ _ _ CE) as Sh.
+  pose proof R0 as R0'. unfold RA0 in R0'.
+  pose proof (ra_tn _ _ _ _ R0') as Tab. simpl in Tab.
+  pose proof (ra_ty _ _ _ _ R0') as TYa.
+  pose proof RCk0 as RCk. unfold check_output in RCk.
+  destruct (PM.find 1%positive (tensors a')) as [tsa'|] eqn:Fa1; try discriminate.
+  destruct (check_levels a' (t_idx tsa') exp) eqn:CL; try discriminate.
+  destruct (read_ptr a' (t_vals tsa') (zlen vals)) as [[lv cv]|] eqn:RV; try discriminate.
+  assert (VP : exists bV be, t_vals tsa' = VPtr bV 0 /\ PM.find bV (heap a') = Some be /\ b_live be = true).
+  { unfold read_ptr in RV. destruct (t_vals tsa'); try discriminate. destruct off; try discriminate.
+    destruct (PM.find blk (heap a')) as [be|] eqn:Fb; try discriminate.
+    destruct (b_live be) eqn:Lb; try discriminate. eauto. }
+  destruct VP as (bV & be & Vq & Fbe & Lbe).
+  destruct (ty_tn _ _ TYa 1%positive tsa' Fa1) as [TVa TIa]. simpl in TVa, TIa.
+  rewrite Vq in TVa. simpl in TVa. destruct TVa as (be0 & Fbe0 & Flbe).
+  assert (be0 = be) by congruence. subst be0. clear Fbe0.
+  pose proof (ra_heap _ _ _ _ R0' bV) as HbV. simpl in HbV. rewrite Fbe in HbV.
+  destruct (PM.find bV (heap b')) as [bb|] eqn:Fbb; [|contradiction].
+  destruct HbV as (Hb1 & Hb2 & Hb3 & Hb4 & _).
+  assert (Fb1 : PM.find 1%positive (tensors b') = Some tsa') by (rewrite <- Tab; exact Fa1).
+  pose proof (NI _ _ _ _ Fb1 Vq Fbb) as Ibb.
+  pose proof (proj2 C4 bV) as SbV. rewrite Fbb in SbV.
+  destruct (PM.find bV (heap c)) as [bcc|] eqn:Fbc0; [|contradiction].
+  destruct SbV as (Sc1 & Sc2 & Sc3 & Sc4).
+  destruct (Sh _ _ T1) as (ts1 & Fs1 & D1 & Len1). rewrite Fa1 in Fs1.
+  assert (Ets : ts1 = tsa') by congruence. subst ts1. clear Fs1. simpl in D1, Len1.
+  assert (Pre : PreC (roles_of fe) 1%positive bV st0 c).
+  { split; [exact (ra_ty _ _ _ _ RI0)|]. split; [intros b x F _; auto|]. split; [|split].
+    - intros t Nt ts F. split; [auto|].
+      destruct (ty_tn _ _ (ra_ty _ _ _ _ RI0) t ts F) as [Tv Ti]. simpl in Tv, Ti. split.
+      + intros b o Q. rewrite Q in Tv. simpl in Tv. destruct Tv as (blk & Fk & _). exists blk. split; auto.
+        exact (AI _ _ Fk).
+      + intros p q I. destruct (Ti _ _ I) as [Tp Tq]. split; intros b o Q; subst.
+        * simpl in Tp. destruct Tp as (blk & Fk & _). exists blk. split; auto. exact (AI _ _ Fk).
+        * simpl in Tq. destruct Tq as (blk & Fk & _). exists blk. split; auto. exact (AI _ _ Fk).
+    - eexists. exists tsa'. split; [exact T1|]. split; [rewrite C3; exact Fb1|]. simpl.
+      split; [auto|]. split; [auto|]. split; [|auto].
+      eapply check_levels_isptr; eauto.
+    - exists bcc. repeat split; auto; congruence. }
+  pose proof (compute_cert3_sound fe fc CC fuel 1%positive bV (pseq 2 (List.length rest)) st0 c Pre) as CSd.
+  assert (Nin : ~ In 1%positive (pseq 2 (List.length rest))).
+  { intros I. apply pseq_ge in I. lia. }
+  specialize (CSd Nin). rewrite CE in CSd.
+  destruct CSd as [(c' & trC & CCl & ph & cur & Rc)|CF]; [left|right; exact CF].
+  exists c', trC. split; [exact CCl|].
+  destruct (compute_store_sound fc CS _ _ _ _ _ _ _ CCl) as (Fr & SS0 & Tc).
+  assert (FrV : forall b, b <> bV -> PM.find b (heap c') = PM.find b (heap c)).
+  { intros b N. apply Fr. intros [o Q]. unfold vals_of in Q. rewrite C3, Fb1, Vq in Q. congruence. }
+  destruct (RC_values _ _ _ _ _ _ _ _ Rc) as (tsa2 & tsc2 & Fa2 & Fc2 & _ & Vc2 & Vals).
+  rewrite Fa1 in Fa2. assert (Et2 : tsa2 = tsa') by congruence. subst tsa2. clear Fa2.
+  split.
+  - apply (check_output_transfer a' c' exp vals exact); [| | |exact RCk0].
+    + rewrite Tc, C3. auto.
+    + intros ts F p q I w. rewrite Fa1 in F. assert (ts = tsa') by congruence. subst ts. clear F.
+      destruct (TIa _ _ I) as [Tp Tq].
+      assert (X : forall r, ptr_int (heap (with_env a' [])) r -> read_ptr c' r w = read_ptr a' r w).
+      { intros r Pr. transitivity (read_ptr b' r w); [|exact (read_ptr_RA _ _ _ _ r w R0' Pr)].
+        destruct r; auto. simpl in Pr. destruct Pr as (x & Fx & Flx).
+        assert (blk <> bV) by (intros ->; rewrite Fbe in Fx; inv Fx; congruence).
+        pose proof (ra_heap _ _ _ _ R0' blk) as Hk. simpl in Hk. rewrite Fx in Hk.
+        destruct (PM.find blk (heap b')) as [y|] eqn:Fy; [|contradiction].
+        destruct Hk as (K1 & _). 
+        apply read_ptr_same_block. rewrite (FrV _ H). rewrite (C5 _ _ Fy); [auto|congruence]. }
+      split; apply X; auto.
+    + intros ts n lv0 cv0 F R. rewrite Fa1 in F. assert (ts = tsa') by congruence. subst ts. clear F.
+      rewrite Vq in R |- *.
+      unfold read_ptr in R. rewrite Fbe, Lbe in R. inv R.
+      destruct (Vals bV 0 be Vq Fbe Lbe) as (_ & bc & Fbc & Lbc & Flbc & Sub).
+      pose proof (proj2 SS0 bV) as SS. rewrite Fbc0, Fbc in SS. destruct SS as (S1 & S2 & _).
+      unfold read_ptr. rewrite Fbc, Lbc. rewrite S2, Sc2, <- Hb2.
+      eexists. split; [reflexivity|]. intros vs A. unfold read_cells in *.
+      eapply all2_sub; [|exact A]. intros i v Ii Fi. apply Sub; auto.
+      apply in_seq in Ii. unfold key. rewrite Z2Pos.id by lia. rewrite S2, Sc2, <- Hb2. lia.
+  - (* the state after compute can be used again *)
+    assert (NbV : forall b x, PM.find b (heap st0) = Some x -> b <> bV).
+    { intros b x F ->. rewrite (C1 _ _ F) in Fbc0. inv Fbc0. rewrite (AI _ _ F) in Sc3. congruence. }
+    split; [|split; [|split; [|split]]].
+    + intros b x F. rewrite (FrV _ (NbV _ _ F)). auto.
+    + intros t ts Nt F. rewrite Tc. auto.
+    + rewrite Tc. exact C3.
+    + destruct C4 as [N4 S4]. destruct SS0 as [N0 S0]. split; [congruence|]. intros b.
+      specialize (S4 b). specialize (S0 b).
+      destruct (PM.find b (heap b')), (PM.find b (heap c)), (PM.find b (heap c')); try contradiction; auto.
+      destruct S4 as (X1 & X2 & X3 & X4), S0 as (Y1 & Y2 & Y3 & Y4). repeat split; congruence.
+    + intros b x F Fl. assert (b <> bV) by (intros ->; rewrite Fbb in F; inv F; congruence).
+      rewrite (FrV _ H). auto.
 Qed.
